@@ -11,6 +11,8 @@ VERIF = os.path.dirname(os.path.dirname(os.path.abspath(__file__)))
 
 HASHMAP_IMPORT = "use std::collections::HashMap;"
 HASHMAP_MODEL_IMPORT = "use crate::vmodel::HashMap;"
+# files whose maps hold large values (Types, Vec<..>): Vec-backed variant of the model
+VEC_MODEL_FILES = ("module_types.rs", "component_subiterator.rs", "component_iterator.rs")
 
 # child harness modules: harness file -> source file (relative to src/) it is appended to
 CHILD_TARGETS = {
@@ -89,7 +91,7 @@ def make_scratch(dst, harness_files, model_hashmap=True, extra_files=None, log=N
             if model_hashmap:
                 if HASHMAP_IMPORT in s2:
                     # ModuleTypes' maps hold large keys/values: Vec-backed variant of the model (see model/vmodel.rs)
-                    imp = "use crate::vmodel::VecHashMap as HashMap;" if fn == "module_types.rs" else HASHMAP_MODEL_IMPORT
+                    imp = "use crate::vmodel::VecHashMap as HashMap;" if fn in VEC_MODEL_FILES else HASHMAP_MODEL_IMPORT
                     s2 = s2.replace("\n" + HASHMAP_IMPORT, "\n" + imp)
                     nswapped += 1
                 s2 = s2.replace("std::collections::hash_map::Values", "crate::vmodel::VecValues" if fn == "module_types.rs" else "crate::vmodel::Values")
